@@ -371,6 +371,12 @@ def main(argv=None):
     ap = argparse.ArgumentParser(prog="check")
     ap.add_argument("what", nargs="?")
     ap.add_argument("file", nargs="?")
+    try:  # kill -USR1 <pid> prints the Python stack of a run that seems stuck
+        import faulthandler
+        import signal
+        faulthandler.register(signal.SIGUSR1, all_threads=True)
+    except Exception:
+        pass
     ap.add_argument("--tier", default=os.environ.get("VERIF_TIER", "quick"), choices=["quick", "thorough"])
     ap.add_argument("--setup", action="store_true")
     ap.add_argument("--replay")
